@@ -143,7 +143,7 @@ def main(argv=None):
     known_lines, known_records = [], []
     ids_run = {o.oid for o in obs}
     for k in findings:
-        targets = [o for o in obligations(prop, "thorough") if fnmatch.fnmatch(o.oid, k["witness_obligation"])]
+        targets = [o for o in obligations(prop, "witness") if fnmatch.fnmatch(o.oid, k["witness_obligation"])]
         if not targets or (a.only and targets[0].oid not in ids_run):
             continue
         r = _replay(targets[0], k["witness"], no_known=True)
